@@ -23,11 +23,88 @@ fn check_text(s: &mut Suite, kind: &str, label: &str, der: &[u8], text: &str) {
 	if resp != want {
 		s.rep.violate(&format!("C14:strict-decode:{}", kind), "the PEM text does not decode under the strict RFC 7468 decoder to (label, DER)", format!("kind: {}\ntext:\n{}\nspec answer: {}\nexpected: {}", kind, text, resp, want));
 	}
+	// the lenient reader behind rcgen's loaders, against its model
+	pem_parse_tie(s, text);
 	// oracle: the pem crate's own parser
 	match pem::parse(text) {
 		Ok(p) if p.tag() == label && p.contents() == der => s.rep.count("oracle_pem_parse_ok"),
 		_ => s.rep.violate(&format!("C14:pem-crate-parse:{}", kind), "pem::parse does not recover label and bytes", text.to_string()),
 	}
+}
+
+/// `pem::parse` against the model of it (Model/PemParse.lean): label and contents, or the kind of error
+fn pem_parse_tie(s: &mut Suite, text: &str) {
+	let real = match std::panic::catch_unwind(|| pem::parse(text)) {
+		Ok(Ok(p)) => tagged("ok", &[hex(p.tag().as_bytes()), hex(p.contents())]),
+		Ok(Err(e)) => tagged("err", &[match e {
+			pem::PemError::MismatchedTags(..) => "MismatchedTags",
+			pem::PemError::MalformedFraming => "MalformedFraming",
+			pem::PemError::MissingBeginTag => "MissingBeginTag",
+			pem::PemError::MissingEndTag => "MissingEndTag",
+			pem::PemError::MissingData => "MissingData",
+			pem::PemError::InvalidData(_) => "InvalidData",
+			pem::PemError::InvalidHeader(_) => "InvalidHeader",
+			pem::PemError::NotUtf8(_) => "NotUtf8",
+		}.to_string()]),
+		Err(_) => "panic".to_string(),
+	};
+	let line = format!("pem-parse {}", hex(text.as_bytes()));
+	let model = s.drv.ask(&line);
+	s.rep.count("pem_parse_tied");
+	if real != model {
+		s.rep.disagree("C14:pem-parse", "the model of pem::parse and pem::parse differ on a text", format!("text: {:?}\nrequest: {}\nreal:  {}\nmodel: {}", text, line, real, model));
+	}
+}
+
+/// texts around a real PEM text that a lenient reader may or may not take: every line edited in
+/// the ways files get damaged or decorated, and the envelope varied
+fn pem_variants(text: &str) -> Vec<String> {
+	let lines: Vec<&str> = text.lines().collect();
+	let mut out: Vec<String> = Vec::new();
+	let join = |l: &Vec<String>| l.join("\n") + "\n";
+	for i in 0..=lines.len() {
+		for ins in ["", " ", "\t", "\r", "Proc-Type: 4,ENCRYPTED", "Comment", "x: y\n", "=", "\u{a0}", "\u{2028}"] {
+			let mut l: Vec<String> = lines.iter().map(|x| x.to_string()).collect();
+			l.insert(i, ins.to_string());
+			out.push(join(&l));
+		}
+		if i < lines.len() {
+			let mut l: Vec<String> = lines.iter().map(|x| x.to_string()).collect();
+			l.remove(i);
+			out.push(join(&l));
+			let mut l: Vec<String> = lines.iter().map(|x| x.to_string()).collect();
+			l[i].push('\r');
+			out.push(join(&l));
+			let mut l: Vec<String> = lines.iter().map(|x| x.to_string()).collect();
+			l[i] = format!(" {} ", l[i]);
+			out.push(join(&l));
+			let mut l: Vec<String> = lines.iter().map(|x| x.to_string()).collect();
+			if !l[i].is_empty() {
+				l[i].pop();
+				out.push(join(&l));
+			}
+			let mut l: Vec<String> = lines.iter().map(|x| x.to_string()).collect();
+			l[i].push('A');
+			out.push(join(&l));
+		}
+	}
+	let body: String = lines.iter().filter(|l| !l.starts_with("-----")).cloned().collect::<Vec<_>>().join("\n");
+	let one: String = lines.iter().filter(|l| !l.starts_with("-----")).cloned().collect::<Vec<_>>().join("");
+	for t in [
+		text.replace('\n', "\r\n"), text.replace('\n', ""), text.replace('\n', " "), text.trim_end().to_string(), format!("junk {}", text), format!("{}junk", text), format!("{}{}", text, text),
+		format!("-----BEGIN X-----\n{}\n-----END Y-----\n", body), format!("-----BEGIN -----\n{}\n-----END -----\n", body), format!("-----BEGIN X-----\n{}\n-----END -----\n", body),
+		format!("-----BEGIN X-----{}-----END X-----", one), format!("-----BEGIN X-----\n\n{}\n-----END X-----\n", body), format!("-----BEGIN X-----\nk: v\n\n{}\n-----END X-----\n", body),
+		format!("-----BEGIN X-----\nk: v\r\n\r\n{}\n-----END X-----\n", body), format!("-----BEGIN X-----\nno colon\n\n{}\n-----END X-----\n", body), format!("------BEGIN X-----\n{}\n-----END X-----\n", body),
+		format!("----- BEGIN X-----\n{}\n-----END X-----\n", body), format!("-----BEGIN X----\n{}\n-----END X-----\n", body), format!("-----BEGIN X-----\n{}\n-----END X", body), format!("-----BEGIN X-----\n{}", body),
+		format!("-----BEGIN X-----\n{}==\n-----END X-----\n", body), format!("-----BEGIN X-----\n{}\n-----END X-----\n", one.trim_end_matches('=')), format!("-----BEGIN X-----\n-----END X-----\n"), format!("-----BEGIN X-----\n \n-----END X-----\n"),
+		String::new(), "-----BEGIN ".to_string(), "-----BEGIN X-----".to_string(), "-----BEGIN X----------END X-----".to_string(), "----------BEGIN X-----\nAA==\n-----END X-----".to_string(), "-----BEGIN -----BEGIN X-----\nAA==\n-----END X-----".to_string(),
+		"-----BEGIN X-----\nAA==\n-----END -----END X-----".to_string(), "-----BEGIN X-----\nAA=A\n-----END X-----".to_string(), "-----BEGIN X-----\nAB==\n-----END X-----".to_string(), "-----BEGIN X-----\nA\n-----END X-----".to_string(),
+		"-----BEGIN X-----\nAA\n-----END X-----".to_string(), "-----BEGIN X-----\nAAA\n-----END X-----".to_string(), "-----BEGIN X-----\nAAA=\n-----END X-----".to_string(), "-----BEGIN X-----\nAAB=\n-----END X-----".to_string(),
+		"-----BEGIN X-----\nA A\tA\u{b}A\u{c}\n-----END X-----".to_string(), "-----BEGIN X-----\nAA\u{e9}A\n-----END X-----".to_string(), "-----BEGIN \u{e9}-----\nAAAA\n-----END \u{e9}-----".to_string(),
+	] {
+		out.push(t);
+	}
+	out
 }
 
 pub fn run(ctx: &mut Ctx) -> Report {
@@ -239,6 +316,42 @@ pub fn run(ctx: &mut Ctx) -> Report {
 			s.rep.exhaustive.push("the four PEM files of the command-line tool after first runs and after reruns into a used directory (longer key first), each required to be exactly one PEM text".into());
 		} else {
 			s.rep.notes.push("the command-line tool was not built: its files were not examined".into());
+		}
+	}
+	// --- the lenient reader on damaged and decorated texts: model = pem::parse, and what rcgen's
+	// loader makes of each (it takes the first block's contents, whatever its label)
+	{
+		let key = s.ctx.key("ed25519");
+		let mut p = PCert::default_like();
+		p.serial = Some(vec![5]);
+		if cfg!(feature = "nocrypto") {
+			p.kid = Kid::Pre(vec![1; 20]);
+		}
+		if let Some(Ok(cert)) = p.real().map(|r| r.self_signed(&*key)) {
+			let text = cert.pem();
+			let vars = pem_variants(&text);
+			for v in &vars {
+				s.rep.case(&format!("pem variant {}", hex(v.as_bytes())), true);
+				pem_parse_tie(&mut s, v);
+				#[cfg(not(feature = "nocrypto"))]
+				{
+					// rcgen's PEM import = its DER import of what the reader hands it
+					let via_pem = std::panic::catch_unwind(std::panic::AssertUnwindSafe(|| CertificateParams::from_ca_cert_pem(v)));
+					let expect = pem::parse(v).ok().map(|b| std::panic::catch_unwind(std::panic::AssertUnwindSafe(|| CertificateParams::from_ca_cert_der(&b.contents().to_vec().into()))));
+					match (via_pem, expect) {
+						(Err(_), _) => s.rep.violate("C10:panic:import-pem", "from_ca_cert_pem panics", format!("{:?}", v)),
+						(Ok(Ok(a)), Some(Ok(Ok(b)))) => {
+							if a != b {
+								s.rep.violate("C14:own-loader:certificate:variant", "from_ca_cert_pem recovers other parameters than from_ca_cert_der of the block's contents", format!("{:?}", v));
+							}
+						},
+						(Ok(Ok(_)), _) => s.rep.violate("C14:own-loader:certificate:variant", "from_ca_cert_pem accepts a text whose first block pem::parse does not yield or whose contents from_ca_cert_der refuses", format!("{:?}", v)),
+						(Ok(Err(_)), Some(Ok(Ok(_)))) => s.rep.violate("C14:own-loader:certificate:variant", "from_ca_cert_pem refuses a text whose first block is a certificate from_ca_cert_der imports", format!("{:?}", v)),
+						_ => {},
+					}
+				}
+			}
+			s.rep.exhaustive.push(format!("{} damaged / decorated variants of a certificate text (every line: blank, space, tab, CR, header with and without colon, Unicode spaces inserted; dropped, CR appended, padded, shortened, lengthened; envelopes with mismatched / empty / doubled / truncated boundary lines; base64 with every padding error): pem::parse = its model, from_ca_cert_pem = from_ca_cert_der of the block", vars.len()));
 		}
 	}
 	s.rep.exhaustive.push(format!("certificate common-name padding 0..{} (DER lengths through all residues mod 3 and mod 48) x all five kinds", pad_max));
